@@ -166,6 +166,10 @@ func (c *conn) sread() (f *Frag, err error) {
 		return nil, err
 	}
 
+	if f.NoReply {
+		return nil, codec.Continue
+	}
+
 	if f.Owner == nil {
 		return f, nil
 	}
